@@ -96,6 +96,10 @@ Step(ev) ==
         ELSE /\ UNCHANGED <<conf, inflight, nconfirmed>>
              /\ (ev.pending # naccepted - nconfirmed => Verdict("failed flush silently dropped accepted deltas"))
      /\ Keep(<<run, acc, naccepted, segs, man, gcBefore, overlap, cActive, accTombs, segc, cin, gcOut>>)
+  \/ /\ ev.a = "shutdown"     \* the pipeline (sink -> bridge -> actor) was shut down gracefully; clean: no fault was injected in the run
+     /\ IF ev.clean THEN conf' = MergeAll(conf, inflight) /\ inflight' = NoFun /\ nconfirmed' = naccepted
+        ELSE UNCHANGED <<conf, inflight, nconfirmed>>
+     /\ Keep(<<run, acc, naccepted, segs, man, gcBefore, overlap, fActive, cActive, accTombs, segc, cin, gcOut>>)
   \/ /\ ev.a = "compact_begin"
      /\ cActive' = TRUE /\ overlap' = (overlap \/ fActive)
      /\ gcBefore' = IF ev.gc_before > gcBefore THEN ev.gc_before ELSE gcBefore
@@ -125,7 +129,8 @@ Step(ev) ==
      /\ IF Tolerated THEN TRUE
         ELSE IF ~ev.ok THEN Verdict("recovery fails on the crash image")
         ELSE IF ~ManifestSound THEN Verdict("manifest references a missing or partial object")
-        ELSE IF ~CrashOk(ev) THEN Verdict("recovered state loses confirmed data or invents data")
+        ELSE IF ~CrashOk(ev) THEN Verdict(IF "final" \in DOMAIN ev THEN "extension: after a graceful shutdown of the persistence pipeline an update that was sent is not recoverable (or data was invented)"
+                                          ELSE "recovered state loses confirmed data or invents data")
         ELSE TRUE
      /\ Keep(<<run, conf, acc, inflight, naccepted, nconfirmed, segs, man, gcBefore, overlap, fActive, cActive, accTombs, segc, cin, gcOut>>)
   \/ /\ ev.a = "panic"
